@@ -36,7 +36,7 @@ PROPS = {
     },
     'C08': {
         'lean_modules': ['C08a'],
-        'engines': [('subs', 400, 4000)],
+        'engines': [('subs', 400, 4000), ('retry', 300, 2500)],
         'rule': 'Subscribe/Unsubscribe call histories over 3 filters x 3 QoS with repeated filters, changed QoS, multi-filter calls, '
                 'duplicates inside one call and absent filters (all histories of <= 4 calls over a 10-call alphabet in the thorough tier)',
         'assumptions': [],
@@ -63,5 +63,59 @@ PROPS = {
                 'place, zero, append into spare capacity, reslice, flip flags/id) and snapshot what they received on entry; 1-5 rounds '
                 'reusing one caller message; payload 0-64 bytes',
         'assumptions': ['handlers respect the frame condition of Props/C20 (they write only what they were given or allocated)'],
+    },
+    'C01': {
+        'lean_modules': ['C01'],
+        'engines': [('retry', 300, 2500)],
+        'rule': 'scripts of environment events (app requests before Connect / while connected / during an outage, dial results, CONNACK accepted with or without session / refused / never, peer close, inbound messages, Handle) with a per-packet fault plan (write failure, lost request, lost acknowledgement, silent) and a friendly tail; hand-written witnesses of the repaired defects first; all single- and double-fault plans over short histories in the thorough tier; non-trivial = the script reached at least one connection',
+        'assumptions': ['one task of the RetryClient is one atomic model step (single task goroutine, one request outstanding at a time)',
+                        'the transport either delivers a whole packet or fails the write; the broker conforms to MQTT 3.1.1 (Spec in Model/Retry: Broker)',
+                        'the application does not mutate a message after Publish and leaves Message.ID zero'],
+        'thorough_seeds': 2,
+    },
+    'C02': {
+        'lean_modules': ['C02'],
+        'engines': [('retry', 300, 2500)],
+        'rule': 'scripts of environment events (app requests before Connect / while connected / during an outage, dial results, CONNACK accepted with or without session / refused / never, peer close, inbound messages, Handle) with a per-packet fault plan (write failure, lost request, lost acknowledgement, silent) and a friendly tail; hand-written witnesses of the repaired defects first; all single- and double-fault plans over short histories in the thorough tier; non-trivial = the script reached at least one connection',
+        'assumptions': ['one task of the RetryClient is one atomic model step (single task goroutine, one request outstanding at a time)',
+                        'the transport either delivers a whole packet or fails the write; the broker conforms to MQTT 3.1.1 (Spec in Model/Retry: Broker)',
+                        'the application does not mutate a message after Publish and leaves Message.ID zero'],
+        'thorough_seeds': 2,
+    },
+    'C03': {
+        'lean_modules': ['C03'],
+        'engines': [('retry', 300, 2500)],
+        'rule': 'scripts of environment events (app requests before Connect / while connected / during an outage, dial results, CONNACK accepted with or without session / refused / never, peer close, inbound messages, Handle) with a per-packet fault plan (write failure, lost request, lost acknowledgement, silent) and a friendly tail; hand-written witnesses of the repaired defects first; all single- and double-fault plans over short histories in the thorough tier; non-trivial = the script reached at least one connection',
+        'assumptions': ['one task of the RetryClient is one atomic model step (single task goroutine, one request outstanding at a time)',
+                        'the transport either delivers a whole packet or fails the write; the broker conforms to MQTT 3.1.1 (Spec in Model/Retry: Broker)',
+                        'the application does not mutate a message after Publish and leaves Message.ID zero'],
+        'thorough_seeds': 2,
+    },
+    'C12': {
+        'lean_modules': ['C12'],
+        'engines': [('retry', 300, 2500)],
+        'rule': 'scripts of environment events (app requests before Connect / while connected / during an outage, dial results, CONNACK accepted with or without session / refused / never, peer close, inbound messages, Handle) with a per-packet fault plan (write failure, lost request, lost acknowledgement, silent) and a friendly tail; hand-written witnesses of the repaired defects first; all single- and double-fault plans over short histories in the thorough tier; non-trivial = the script reached at least one connection',
+        'assumptions': ['one task of the RetryClient is one atomic model step (single task goroutine, one request outstanding at a time)',
+                        'the transport either delivers a whole packet or fails the write; the broker conforms to MQTT 3.1.1 (Spec in Model/Retry: Broker)',
+                        'the application does not mutate a message after Publish and leaves Message.ID zero'],
+        'thorough_seeds': 2,
+    },
+    'C17': {
+        'lean_modules': ['C17'],
+        'engines': [('retry', 300, 2500)],
+        'rule': 'scripts of environment events (app requests before Connect / while connected / during an outage, dial results, CONNACK accepted with or without session / refused / never, peer close, inbound messages, Handle) with a per-packet fault plan (write failure, lost request, lost acknowledgement, silent) and a friendly tail; hand-written witnesses of the repaired defects first; all single- and double-fault plans over short histories in the thorough tier; non-trivial = the script reached at least one connection',
+        'assumptions': ['one task of the RetryClient is one atomic model step (single task goroutine, one request outstanding at a time)',
+                        'the transport either delivers a whole packet or fails the write; the broker conforms to MQTT 3.1.1 (Spec in Model/Retry: Broker)',
+                        'the application does not mutate a message after Publish and leaves Message.ID zero'],
+        'thorough_seeds': 2,
+    },
+    'C18': {
+        'lean_modules': ['C18'],
+        'engines': [('retry', 300, 2500)],
+        'rule': 'scripts of environment events (app requests before Connect / while connected / during an outage, dial results, CONNACK accepted with or without session / refused / never, peer close, inbound messages, Handle) with a per-packet fault plan (write failure, lost request, lost acknowledgement, silent) and a friendly tail; hand-written witnesses of the repaired defects first; all single- and double-fault plans over short histories in the thorough tier; non-trivial = the script reached at least one connection',
+        'assumptions': ['one task of the RetryClient is one atomic model step (single task goroutine, one request outstanding at a time)',
+                        'the transport either delivers a whole packet or fails the write; the broker conforms to MQTT 3.1.1 (Spec in Model/Retry: Broker)',
+                        'the application does not mutate a message after Publish and leaves Message.ID zero'],
+        'thorough_seeds': 2,
     },
 }
